@@ -5,7 +5,7 @@ import time
 from harness import core, connlib, serverlib
 
 PROP = "C10"
-LEAN_MODULES = ["MpgsModel.Props.C10", "MpgsModel.Props.C10Run"]
+LEAN_MODULES = ["MpgsModel.Props.C10", "MpgsModel.Props.C10Run", "MpgsModel.Props.C10Kick"]
 MODEL_MODULES = ["MpgsModel.Model.Server", "MpgsModel.Model.ToyAead"]
 NS = "Mpgs.Server."
 THEOREMS = [
@@ -16,8 +16,13 @@ THEOREMS = [
     (NS + "C10_lifecycle_whole_run", "full"),
     (NS + "C10_lifecycle_with_shutdown", "full"),
     (NS + "C10_connect_and_disconnect_once", "full"),
+    (NS + "C10_kick_ends_the_round", "full"),
 ]
 ASSUMPTIONS = [
+    "server-initiated end of the round (C10_kick_ends_the_round): when handler.update disconnects every connected client, the sweep of that "
+    "very iteration reports each of them with a disconnect event and the connected pool is empty afterwards, whatever was queued and "
+    "whatever the other handlers do; in the runs the scripted update handler does this in about 2 % of the iterations, and in the shutdown "
+    "phase a disconnect handler may kick the other clients",
     "per-step theorems about the loop model for every pool content, datagram, handler behaviour and random stream (messages only for "
     "entries of the connected pool and with their identity, connect only on promotion (C02), never a disconnect from datagram handling, "
     "shutdown disconnects every connected client once, tokens fresh)",
